@@ -23,10 +23,20 @@ pub fn split_suffix(s: &[u8]) -> (&[u8], &[u8]) {
 
 /// The short form of the alphabetic part of a definition: everything before
 /// its first lower-case letter (upper-case letters and, for names such as
-/// `P6V` or `CH1A`, digits embedded among them).
+/// `P6V`, `CH1A` or `MY_CMD`, digits and underscores embedded among them).
+/// Underscores at the end of that run belong to the optional tail:
+/// `SAMP_rate` is addressed as `SAMP` (or `SAMP_RATE`).
 pub fn short_of(alpha: &[u8]) -> &[u8] {
-    let n = alpha.iter().take_while(|c| c.is_ascii_uppercase() || c.is_ascii_digit() || **c == b'_').count();
+    let mut n = upper_run(alpha);
+    while n > 0 && alpha[n - 1] == b'_' {
+        n -= 1;
+    }
     &alpha[..n]
+}
+
+/// Length of the leading run of upper-case letters, digits and underscores.
+fn upper_run(alpha: &[u8]) -> usize {
+    alpha.iter().take_while(|c| c.is_ascii_uppercase() || c.is_ascii_digit() || **c == b'_').count()
 }
 
 fn strip_zeros(d: &[u8]) -> &[u8] {
@@ -36,21 +46,38 @@ fn strip_zeros(d: &[u8]) -> &[u8] {
 
 /// Does the alphabetic part `cand` spell the short or the long form of `def_alpha`?
 pub fn alpha_matches(def_alpha: &[u8], cand_alpha: &[u8]) -> bool {
-    !def_alpha.is_empty()
-        && (cand_alpha.eq_ignore_ascii_case(def_alpha)
-            || cand_alpha.eq_ignore_ascii_case(short_of(def_alpha)))
+    alpha_verdict(def_alpha, cand_alpha) == Verdict::Match
+}
+
+/// Match: the short or the long form. NoClaim: the short form followed by some
+/// of the underscores that separate it from the optional tail (`SAMP_` for
+/// `SAMP_rate`): SCPI does not say whether that spells the short form.
+pub fn alpha_verdict(def_alpha: &[u8], cand_alpha: &[u8]) -> Verdict {
+    if def_alpha.is_empty() {
+        return Verdict::NoMatch;
+    }
+    let short = short_of(def_alpha);
+    if cand_alpha.eq_ignore_ascii_case(def_alpha) || cand_alpha.eq_ignore_ascii_case(short) {
+        return Verdict::Match;
+    }
+    let run = upper_run(def_alpha);
+    if cand_alpha.len() > short.len() && cand_alpha.len() <= run && cand_alpha.eq_ignore_ascii_case(&def_alpha[..cand_alpha.len()]) {
+        return Verdict::NoClaim;
+    }
+    Verdict::NoMatch
 }
 
 pub fn matches(def: &[u8], cand: &[u8]) -> Verdict {
     let (da, ds) = split_suffix(def);
     let (ca, cs) = split_suffix(cand);
-    if !alpha_matches(da, ca) {
+    let av = alpha_verdict(da, ca);
+    if av == Verdict::NoMatch {
         return Verdict::NoMatch;
     }
     let ds: &[u8] = if ds.is_empty() { b"1" } else { ds };
     let cs: &[u8] = if cs.is_empty() { b"1" } else { cs };
     if ds == cs {
-        Verdict::Match
+        av
     } else if strip_zeros(ds) == strip_zeros(cs) {
         Verdict::NoClaim
     } else {
